@@ -872,7 +872,7 @@ fn run_bundle<P: Payload + Clone>(ctx: &Ctx, b: &Bundle, prefix: &Option<Vec<Cal
                 }
                 // ... and evolves like the source: one removal followed by allocations (a free list carried over from the
                 // destination's earlier life would show here)
-                if same {
+                {
                     if let Some(slot) = (1..=su.arena.count()).find(|s| !su.arena[su.id(*s)].is_removed()) {
                         let rm = Call { op: "remove".into(), a: slot, b: 0, v: 0, checked: false, r: vec![] };
                         let mut d2 = d.fork();
